@@ -430,6 +430,7 @@ let () =
   | _ :: "cps" :: _ -> Cpsdrv.run_cps ()
   | _ :: "fold" :: _ -> Cpsdrv.run_fold ()
   | _ :: "foldeq" :: _ -> Cpsdrv.run_foldeq ()
+  | _ :: "utf16" :: _ -> Cpsdrv.run_utf16 ()
   | _ :: "props" :: _ -> Cpsdrv.run_props ()
   | _ :: "searcher" :: _ -> Srchdrv.run ()
   | _ -> main_exec ()
